@@ -323,10 +323,8 @@ func HandleSetFileInfo(cc *hotline.ClientConn, t *hotline.Transaction) (res []ho
 			if err != nil {
 				return nil
 			}
-			hlFile.Name, err = txtDecoder.String(string(fileNewName))
-			if err != nil {
-				return res
-			}
+			// fullNewFilePath was cleaned and decoded by ReadPath; using the raw new name would let "../" escape the root.
+			hlFile.Name = filepath.Base(fullNewFilePath)
 
 			err = hlFile.Move(fileDir)
 			if os.IsNotExist(err) {
